@@ -533,6 +533,9 @@ func (pe *PolicyEngine) deletePod(p *corev1.Pod) error {
 		podToDelete = podObj
 	}
 
+	if podToDelete == nil {
+		return nil // the pod is not in the policy engine - nothing to delete
+	}
 	delete(pe.podsMap, podName)
 	pe.updatePodOwnersToRepresentativePodMapIfRequired(podToDelete)
 	return nil
